@@ -88,7 +88,7 @@ func topLike(p string) bool { return p == "Top" || strings.HasPrefix(p, "RV") }
 // isClassified: x has a classification of its own or re-enters the printer.
 func isClassified(v *Val) bool {
 	return !isFmtCompatVal(v) || hasKind(v, map[string]bool{"svstr": true, "svint": true, "svfloat": true, "svstringer": true, "svsstringer": true,
-		"sverr": true, "svstruct": true, "regstr": true, "regint": true, "regstruct": true, "regstringer": true})
+		"sverr": true, "svstruct": true, "structsv": true, "embsafe": true, "regstr": true, "regint": true, "regstruct": true, "regstringer": true})
 }
 
 func hasKind(v *Val, ks map[string]bool) bool {
